@@ -511,6 +511,7 @@ class SetFam(Family):
         ops += [("setitem", 5, "foo"), ("delitem", 5)]
         ops += [("assign", "none", None), ("assign", "str", "foo, Bar"), ("assign", "str", ""), ("assign", "list", ("baz", "foo")),
                 ("assign", "list", ()), ("assign", "hs", ("Foo", "bar")), ("assign", "tuple", ("bar",)),
+                ("assign", "hs", ()), ("assign", "tuple", ()),
                 ("hdr_set", "baz, Foo"), ("hdr_set", "qux"), ("hdr_del",), ("reobtain",)]
         return ops
 
@@ -692,7 +693,7 @@ CC_DIRECTIVES = {
     "stale_while_revalidate": ("stale-while-revalidate", "int"),
     "no_cache": ("no-cache", "str"), "private": ("private", "str"),
 }
-CC_VALUES = (True, False, None, 0, 5, "x")
+CC_VALUES = (True, False, None, 0, 5, "x", "")
 
 
 def cc_typed_get(d, key, kind):
@@ -842,6 +843,9 @@ class CSPFam(DictFam):
         for a in CSP_ATTRS:
             ops += [("attr_set", a, val) for val in CSP_VALUES + (None,)] + [("attr_del", a)]
         ops += self.dict_ops(self.keys[:2] + ["x-y"], CSP_VALUES[:2])
+        # not generated: a directive with an EMPTY value. parse_csp_header documents "ignore badly formatted
+        # policies (no space)" and the suite pins it ("...; img-src" -> img_src is None), so '' is outside the
+        # view's value domain rather than a drift.
         ops += [("assign", "none", None), ("assign", "str", "img-src *; default-src 'self'"), ("assign", "str", ""),
                 ("assign", "obj", (("script-src", "*"),)), ("assign", "obj", ()),
                 ("hdr_set", "script-src a b"), ("hdr_del",), ("reobtain",)]
@@ -948,7 +952,7 @@ class MimeFam(DictFam):
         return None
 
     def ops(self):
-        ops = self.dict_ops(["charset", "boundary", "x"], ("utf-8", "a b"))
+        ops = self.dict_ops(["charset", "boundary", "x"], ("utf-8", "a b", ""))
         ops += [("mimetype_set", "text/html"), ("mimetype_set", "application/json"), ("ctype_set", "text/x; a=b; charset=z"),
                 ("hdr_del",), ("reobtain",)]
         return ops
@@ -1059,7 +1063,8 @@ class WWWFam(Family):
     def ops(self):
         return [("type_set", "digest"), ("type_set", "bearer"), ("type_set", "basic"),
                 ("token_set", "tok"), ("token_set", "abc"), ("token_set", None),
-                ("attr_set", "realm", "r"), ("attr_set", "realm", None), ("attr_set", "nonce", "n"), ("attr_del", "realm"),
+                ("attr_set", "realm", "r"), ("attr_set", "realm", None), ("attr_set", "realm", ""), ("attr_set", "nonce", "n"),
+                ("attr_del", "realm"),
                 ("attr_del", "nonce"),
                 ("item_set", "qop", "auth"), ("item_set", "qop", None), ("item_set", "realm", "z"), ("item_del", "qop"),
                 ("params_item", "realm", "z"), ("params_item", "opaque", "o"), ("params_pop", "realm"), ("params_clear",),
@@ -1184,7 +1189,7 @@ def range_valid(start, stop, length):
         return True
     if not 0 <= start < stop:
         return False
-    return length is None or start < length
+    return length is None or stop <= length          # the explored domain: ranges that lie inside the length
 
 
 class CRFam(Family):
@@ -1228,20 +1233,26 @@ class CRFam(Family):
         return (units, int(a), int(b) + 1, length)
 
     def typed(self, v, m):
-        return [("bool", bool(v), m[0] is not None)]
+        return [("bool", bool(v), m[0] is not None)] + \
+               ([(a, getattr(v, a), x) for a, x in zip(("units", "start", "stop", "length"), m)] if m[0] is not None else [])
 
     def ops(self):
+        # boundary values on purpose: length 0 (only valid for */0), start 0, stop == length, start == stop - 1,
+        # unknown length, units other than bytes
         ops = []
-        for st, sp in ((None, None), (0, 3), (0, 5), (2, 3), (2, 5)):
-            for ln in (None, 5, 10):
-                ops.append(("set", st, sp, ln, "bytes"))
-        ops += [("set", 0, 3, None, "items"), ("set3", 2, 5, 10), ("unset",)]
+        for st, sp in ((None, None), (0, 1), (0, 3), (2, 3), (0, 5), (2, 5)):
+            for ln in (None, 0, 3, 5):
+                if range_valid(st, sp, ln):
+                    ops.append(("set", st, sp, ln, "bytes"))
+        ops += [("set", 0, 3, None, "items"), ("set", None, None, 0, "items"), ("set3", 2, 5, 5), ("set3", None, None, 0), ("unset",)]
         ops += [("attr", "units", x) for x in ("bytes", "items", None)]
         ops += [("attr", "start", x) for x in (0, 2, None)]
-        ops += [("attr", "stop", x) for x in (3, 5, None)]
-        ops += [("attr", "length", x) for x in (5, 10, None)]
-        ops += [("assign", "obj", ("bytes", 0, 3, 5)), ("assign", "str", "bytes 2-4/10"), ("assign", "str", "bytes */5"),
-                ("assign", "none", None), ("assign", "str", ""), ("hdr_set", "items 0-2/*"), ("hdr_del",), ("reobtain",)]
+        ops += [("attr", "stop", x) for x in (1, 3, 5, None)]
+        ops += [("attr", "length", x) for x in (0, 3, 5, None)]
+        ops += [("assign", "obj", ("bytes", 0, 3, 5)), ("assign", "obj", ("bytes", None, None, 0)), ("assign", "obj", ("items", 0, 1, None)),
+                ("assign", "str", "bytes 2-4/5"), ("assign", "str", "bytes */5"), ("assign", "str", "bytes */0"),
+                ("assign", "str", "bytes 0-0/*"), ("assign", "none", None), ("assign", "str", ""),
+                ("hdr_set", "items 0-2/*"), ("hdr_set", "bytes */0"), ("hdr_del",), ("reobtain",)]
         return ops
 
     def apply(self, ctx, op):
@@ -1322,6 +1333,7 @@ D1 = datetime(2015, 1, 1, 0, 0, 0, tzinfo=UTC)
 D2 = datetime(2024, 2, 29, 23, 59, 59, 999999, tzinfo=UTC)                       # microseconds, leap day
 D3 = datetime(2020, 12, 31, 23, 30, 15, 250000, tzinfo=timezone(timedelta(hours=2)))    # non-UTC offset
 D4 = datetime(2001, 9, 9, 1, 46, 40)                                                    # naive = UTC
+D0 = datetime(1970, 1, 1, tzinfo=UTC)                                                   # the epoch: timestamp 0 is a date
 
 
 def as_utc_second(dt):
@@ -1345,6 +1357,8 @@ class RB:
                     and got.microsecond == 0 and got == v)
         if k == "set":
             return isinstance(got, HeaderSet) and list(got) == list(v)
+        if k == "emptyset":      # an empty collection: read back as an empty set, or as "not set"
+            return got is None or (isinstance(got, HeaderSet) and list(got) == [])
         if k == "soon":      # now + v seconds, bracketed by the harness clock
             return isinstance(got, datetime) and got.tzinfo is not None and t0 + timedelta(seconds=v) <= got <= t1 + timedelta(seconds=v)
         raise core.Broken(k)
@@ -1361,7 +1375,7 @@ def _str_prop(prop, header):
 
 def _date_prop(prop, header):
     return dict(prop=prop, header=header, default=RB("eq", None), deletable=True,
-                assigns=[(f"d{i}", d, rfc1123(as_utc_second(d)), RB("dt", as_utc_second(d))) for i, d in enumerate((D1, D2, D3, D4))],
+                assigns=[(f"d{i}", d, rfc1123(as_utc_second(d)), RB("dt", as_utc_second(d))) for i, d in enumerate((D1, D2, D3, D4, D0))],
                 direct=[("Sun, 06 Nov 1994 08:49:37 GMT", RB("dt", datetime(1994, 11, 6, 8, 49, 37, tzinfo=UTC))),
                         ("garbage", RB("eq", None))])
 
@@ -1369,13 +1383,16 @@ def _date_prop(prop, header):
 def _set_prop(prop, header):
     return dict(prop=prop, header=header, default=RB("eq", None), deletable=True, parse_set=True,
                 assigns=[("list", ["X-A", "b"], ["X-A", "b"], RB("set", ["X-A", "b"])),
-                         ("hs", ("HS", ("q", "R")), ["q", "R"], RB("set", ["q", "R"]))],
+                         ("hs", ("HS", ("q", "R")), ["q", "R"], RB("set", ["q", "R"])),
+                         ("empty-list", [], ("ANY", "", None), RB("emptyset")),
+                         ("empty-hs", ("HS", ()), ("ANY", "", None), RB("emptyset"))],
                 direct=[("a, B", RB("set", ["a", "B"]))])
 
 
 SCALARS = [
     dict(prop="age", header="Age", default=RB("eq", None), deletable=True,
          assigns=[("0", 0, "0", RB("eq", timedelta(0))), ("5", 5, "5", RB("eq", timedelta(seconds=5))),
+                  ("td0", timedelta(0), "0", RB("eq", timedelta(0))),
                   ("td", timedelta(seconds=7), "7", RB("eq", timedelta(seconds=7))),
                   ("td-frac", timedelta(seconds=7, microseconds=500000), "7", RB("eq", timedelta(seconds=7))),
                   ("td-day", timedelta(days=1, seconds=1), "86401", RB("eq", timedelta(days=1, seconds=1)))],
@@ -1397,6 +1414,7 @@ SCALARS = [
     dict(prop="retry_after", header="Retry-After", default=RB("eq", None), deletable=False,
          assigns=[("dt", D2, rfc1123(as_utc_second(D2)), RB("dt", as_utc_second(D2))),
                   ("dt-off", D3, rfc1123(as_utc_second(D3)), RB("dt", as_utc_second(D3))),
+                  ("epoch", D0, rfc1123(D0), RB("dt", D0)), ("int0", 0, "0", RB("soon", 0)),
                   ("int", 120, "120", RB("soon", 120)), ("str", "30", "30", RB("soon", 30)), ("none", None, None, RB("eq", None))],
          direct=[("7", RB("soon", 7)), ("Sun, 06 Nov 1994 08:49:37 GMT", RB("dt", datetime(1994, 11, 6, 8, 49, 37, tzinfo=UTC)))]),
     dict(prop="access_control_allow_credentials", header="Access-Control-Allow-Credentials", default=RB("eq", False), deletable=False,
@@ -1415,7 +1433,8 @@ SCALARS = [
                   ("unsafe-none", COEP.UNSAFE_NONE, "unsafe-none", RB("eq", COEP.UNSAFE_NONE))],
          direct=[("require-corp", RB("eq", COEP.REQUIRE_CORP)), ("bogus", RB("eq", COEP.UNSAFE_NONE))]),
     dict(prop="etag", header="ETag", default=RB("eq", (None, None)), deletable=False, etag=True,
-         assigns=[("strong", ("abc", False), '"abc"', RB("eq", ("abc", False))), ("weak", ("abc", True), 'W/"abc"', RB("eq", ("abc", True)))],
+         assigns=[("strong", ("abc", False), '"abc"', RB("eq", ("abc", False))), ("weak", ("abc", True), 'W/"abc"', RB("eq", ("abc", True))),
+                  ("empty", ("", False), '""', RB("eq", ("", False)))],
          direct=[('"zz"', RB("eq", ("zz", False))), ('W/"zz"', RB("eq", ("zz", True)))]),
 ]
 SCALAR_BY_NAME = {s["prop"]: s for s in SCALARS}
@@ -1468,7 +1487,9 @@ def scalar_run(prop, seq):
             out.append((f"scalar:{prop}:{op[0]}:raised", dict(base, check="raised", exp="no exception", got=err)))
             return out, done
         text = r.headers.get(spec["header"])
-        if spec.get("parse_set") and exp_text is not None and not isinstance(exp_text, str):
+        if isinstance(exp_text, tuple) and exp_text and exp_text[0] == "ANY":
+            okh = text in exp_text[1:]
+        elif spec.get("parse_set") and exp_text is not None and not isinstance(exp_text, str):
             okh = text is not None and [unq(x) for x in split_top(text, ",")] == list(exp_text)
         else:
             okh = text == exp_text
@@ -1647,6 +1668,13 @@ def _f_www_setattr(rec):
     return (rec.get("family") == "www_authenticate" and thaw(rec["op"])[0] in ("type_set", "token_set", "params_assign")
             and rec["check"] in ("readback", "view-content", "header-text", "reread", "header-missing", "typed:view",
                                  "typed:fresh", "header-not-removed"))
+
+
+def _f_csp_empty_value(rec):
+    """a CSP directive with an empty value is serialised as 'name ' and dropped again by parse_csp_header"""
+    op = thaw(rec["op"])
+    return (rec.get("family", "").startswith("csp:") and op[0] in ("item_set", "attr_set") and op[2] == ""
+            and rec["check"] in ("reread", "typed:fresh"))
 
 
 FINDINGS = {
